@@ -41,7 +41,7 @@ def budget(tier):
 
 
 def gen(d, tier):
-    cfg = draw_cfg(d)
+    cfg = draw_cfg(d, allow_ci=True)
     n_ops = (3, 9) if tier == "quick" else (3, 18)
     acts, world = gen_history(d, cfg, sides=(0, 1), n_ops=n_ops, sizes=False, w_op=5, w_gadget=2,
                               shapes=shapes_for(cfg))
